@@ -3,10 +3,12 @@
 package main
 
 import (
+	"encoding/json"
 	"fmt"
 	"math/rand"
 	"os"
 	"sort"
+	"strings"
 
 	"verif/harness/vlib"
 )
@@ -54,4 +56,26 @@ func mustTargets(run *vlib.Run) (*vlib.Oracles, []*vlib.Target) {
 		run.Finish(0, 0, "")
 	}
 	return o, ts
+}
+
+func writeJSON(path string, v any) error {
+	b, err := json.Marshal(v)
+	if err != nil {
+		return err
+	}
+	return os.WriteFile(path, b, 0o644)
+}
+
+// parseChildLines parses the JSON lines a vchild prints.
+func parseChildLines(out string) []map[string]any {
+	var lines []map[string]any
+	for _, l := range strings.Split(out, "\n") {
+		var m map[string]any
+		d := json.NewDecoder(strings.NewReader(l))
+		d.UseNumber()
+		if d.Decode(&m) == nil && m != nil {
+			lines = append(lines, m)
+		}
+	}
+	return lines
 }
